@@ -23,7 +23,7 @@ DISC = ["s", "g", "m"]
 RULE = (
     "state sets = all non-empty subsets (size <= 4 thorough, <= 3 quick + rotations of the 4-sets) of the pool {s:3,g:2,m:4,"
     "w:lin5,k:log6}; block P: ALL permutations of the declaration order with the default restriction; block R: default "
-    "order x ALL subsets of restricted discrete states x period-dependent filter {off,on} x choices reversed {off,on} x "
+    "order x ALL subsets of restricted discrete states x period-dependent filter {off,on,states-only,mixed,single-combination-in-period-0} x choices reversed {off,on} x "
     "functions reversed; per model every period and every entry of the array is compared; distinct by digest of arrays"
 )
 ASSUMPTIONS = ["layout contract implemented in mc/refmodel.Ref.to_lcm_layout; values from the reference Bellman solution (asymmetric in the states, so every transposition changes some entry)", "1e-9 relative"]
@@ -71,6 +71,9 @@ def cases(tier, seed):
                         add(sset, rset, "sonly", True, True, "R")
                         add(sset, rset, "mix", False, False, "R")
                         add(sset, rset, "mix", False, True, "R")
+                        # period 0 has EXACTLY ONE feasible combination of the restricted states (axis of length 1 stays)
+                        add(sset, rset, "single", False, False, "R")
+                        add(sset, rset, "single-sonly", True, False, "R")
     # large cases (sizes beyond the small alphabet): many unrestricted variables; many restricted combinations
     out.append({"id": "large-17-unrestricted-variables", "block": "L", "large": "many_vars", "order": [], "restricted": [], "pfilter": False, "crev": False, "frev": False, "seed": seed})
     out.append({"id": "large-12-periods", "block": "L", "large": "many_periods", "order": [], "restricted": [], "pfilter": False, "crev": False, "frev": False, "seed": seed})
@@ -167,6 +170,10 @@ def build(case):
         elif case["pfilter"] == "sonly":
             # filter on STATES only: the choices stay unrestricted (dense) although there is a sparse axis
             L.append(f"def r_filter({', '.join(R)}):\n    return ({ssum}) != 2")
+        elif case["pfilter"] == "single":
+            L.append(f"def r_filter({', '.join(R)}, d, _period):\n    return jnp.logical_and(({ssum}) <= _period, jnp.logical_or(d == 0, ({ssum}) % 2 == 0))")
+        elif case["pfilter"] == "single-sonly":
+            L.append(f"def r_filter({', '.join(R)}, _period):\n    return ({ssum}) <= _period")
         elif case["pfilter"] == "alt":
             L.append(f"def r_filter({', '.join(R)}, d):\n    return jnp.logical_or(d == 0, ({ssum}) % 2 == 1)")
         elif case["pfilter"]:
